@@ -423,6 +423,22 @@ func (f *forger) respondAs(rs respSpec, h int64) *lie {
 		}
 		bp.Header.DataHash = tt.Hash()
 		return &lie{Kind: kind, Block: bp, Height: h}
+	case "tx-tamper-bulky":
+		// the canonical block plus one very large transaction (DataHash recomputed): building its part set and
+		// hashing it keeps the verifying goroutine busy for a good while
+		bp := f.canon(h)
+		big := make([]byte, (4+rs.Arg%5)<<20)
+		for i := range big {
+			big[i] = byte(i*31 + rs.Arg)
+		}
+		txs := append(append([][]byte(nil), bp.Data.Txs...), big)
+		bp.Data.Txs = txs
+		tt := make(types.Txs, len(txs))
+		for i, x := range txs {
+			tt[i] = x
+		}
+		bp.Header.DataHash = tt.Hash()
+		return &lie{Kind: kind, Block: bp, Height: h}
 	case "basic-invalid":
 		bp := f.canon(h)
 		bp.Data.Txs = append(append([][]byte(nil), bp.Data.Txs...), []byte("smuggled")) // DataHash left alone
